@@ -52,6 +52,29 @@ def run(chk):
             vals = [v for _d, v in norm.fn_defs(rq.node).defs.get(e.id, []) if v is not None]
             if len(vals) == 1 and isinstance(vals[0], ast.Call) and isinstance(vals[0].func, ast.Attribute) and vals[0].func.attr == "origin":
                 return e.id, {"scheme", "host", "netloc-port"}
+        if isinstance(e, ast.Call) and isinstance(e.func, ast.Name) and len(e.args) == 1 and not e.keywords:
+            # a helper of the module that maps a URL to its origin key: `_origin_key(url)` returning (scheme', host', port) - each element
+            # is computed from one component of the parameter (normalised: ws -> http, lower-cased host)
+            r_ = repo.resolve_name(rq.module, e.func.id)
+            if r_ and r_[0] == "func" and len(r_[1].node.args.args) == 1:
+                hf = r_[1]
+                par = hf.node.args.args[0].arg
+                rets = [x.value for x in ast.walk(hf.node) if isinstance(x, ast.Return) and isinstance(x.value, ast.Tuple)]
+                if len(rets) == 1:
+                    hd = norm.fn_defs(hf.node)
+                    comps = set()
+                    for el in rets[0].elts:
+                        seen_, todo = set(), [el]
+                        while todo:
+                            x = todo.pop()
+                            for a in ast.walk(x):
+                                if isinstance(a, ast.Attribute) and isinstance(a.value, ast.Name) and a.value.id == par:
+                                    seen_.add("host" if a.attr in ("raw_host", "host", "host_subcomponent") else a.attr)
+                                elif isinstance(a, ast.Name) and a.id != par:
+                                    todo += [v for _d, v in hd.defs.get(a.id, []) if v is not None and v is not x]
+                        if len(seen_) == 1:
+                            comps |= seen_
+                    return norm.raw(e.args[0]), comps
         if isinstance(e, ast.Tuple) and e.elts and all(isinstance(x, ast.Attribute) for x in e.elts):
             bases = {norm.raw(x.value) for x in e.elts}
             if len(bases) == 1:
